@@ -458,6 +458,8 @@ fn cmd_wrap(args: &[String]) -> i32 {
     let defs_path = arg_val(args, "--defs").expect("--defs");
     let out = arg_val(args, "--out").expect("--out");
     let widths: Vec<usize> = arg_val(args, "--widths").expect("--widths").split(',').map(|x| x.parse().unwrap()).collect();
+    // widths at which the rendered text itself is recorded (compared with what a real process prints under `max_width`)
+    let text_widths: Vec<usize> = arg_val(args, "--text-widths").map(|x| x.split(',').filter(|y| !y.is_empty()).map(|y| y.parse().unwrap()).collect()).unwrap_or_default();
     let rd = BufReader::new(std::fs::File::open(&defs_path).unwrap());
     let mut w = BufWriter::new(std::fs::File::create(&out).unwrap());
     let strip = |t: &str| -> String { t.chars().filter(|c| !c.is_whitespace()).collect() };
@@ -543,8 +545,12 @@ fn cmd_wrap(args: &[String]) -> i32 {
                     }
                     evs.push(json!({"indent": indent, "toks": toks, "code": ref_lines.contains(line), "len": chars.len()}));
                 }
-                writeln!(w, "{}", json!({"def": def["id"], "doc": docid, "kind": "wrap", "width": wd,
-                    "refs": refs, "got": strip(&text), "lines": evs})).unwrap();
+                let mut rec = json!({"def": def["id"], "doc": docid, "kind": "wrap", "width": wd,
+                    "refs": refs, "got": strip(&text), "lines": evs});
+                if text_widths.contains(&wd) && docid.starts_with("help") {
+                    rec["text"] = J::String(text.clone());
+                }
+                writeln!(w, "{}", rec).unwrap();
                 n += 1;
             }
         }
